@@ -780,7 +780,9 @@ class Gen:
                 cap = ctx["vars"] if self.p.get("closure_assign", False) else [(n, t, False) for (n, t, _) in ctx["vars"]]
                 # (former finding C03-K11 — assigning a FIELD of a captured record inside a closure panicked the compiler —
                 # is repaired: captured records are assignable under `closure_assign` like captured numbers)
-                lctx = dict(ctx, vars=cap + [(q, F, False) for q in ps], allow_state=False, self_type=None, in_lambda=True,
+                # (former finding C01-G9 / C18-D7 — WASM and the emitted Rust captured a PARAMETER by value, so an inner closure's
+                # assignment to it was lost — is repaired: parameters are assignable under `closure_assign` like let variables)
+                lctx = dict(ctx, vars=cap + [(q, F, self.p.get("closure_assign", False)) for q in ps], allow_state=False, self_type=None, in_lambda=True,
                             lam_depth=ctx.get("lam_depth", 1 if ctx.get("in_lambda") else 0) + 1)
                 if self.p.get("stateful_lambdas", False) and ctx["allow_state"]:
                     # (former finding F11 of C01 -- on WASM a closure created inside dsp inherited the state of the previous
@@ -873,12 +875,12 @@ class Gen:
         self.bump("s_escaping_" + kind)
         p = self.fresh("p")
         cap = ctx["vars"] if assign else [(n, t, False) for (n, t, _) in ctx["vars"]]
-        mctx = dict(ctx, vars=cap + [(p, F, False)], allow_state=False, self_type=None, in_lambda=True,
+        mctx = dict(ctx, vars=cap + [(p, F, assign)], allow_state=False, self_type=None, in_lambda=True,
                     lam_depth=ctx.get("lam_depth", 0) + 1)
 
         def inner():
             q = self.fresh("p")
-            ictx = dict(mctx, vars=mctx["vars"] + [(q, F, False)], lam_depth=mctx["lam_depth"] + 1)
+            ictx = dict(mctx, vars=mctx["vars"] + [(q, F, assign)], lam_depth=mctx["lam_depth"] + 1)
             body = self.add_to_tail(self.block(F, max(0, d - 2), ictx), Node("var", v))
             if assign and r.chance(2, 3):
                 rhs = Node("bin", r.pick(["add", "sub", "mul"]), Node("var", v), r.pick([Node("var", q), Node("var", p), Node("lit", "1.0")]))
@@ -990,7 +992,7 @@ class Gen:
     def gen_fn(self, name, nparams, ret, depth, stateful, globals_):
         ps = [self.fresh("a") for _ in range(nparams)]
         used_self = [False]
-        ctx = dict(vars=list(globals_) + [(q, F, False) for q in ps], allow_state=stateful,
+        ctx = dict(vars=list(globals_) + [(q, F, self.p.get("closure_assign", False)) for q in ps], allow_state=stateful,
                    self_type=ret if stateful and self.p.get("self", True) else None, delays=set(), used_self=used_self)
         s0 = self.site
         body = self.block(ret, depth, ctx)
